@@ -4,7 +4,7 @@
    with library-generated names for the inner simplices) and every applicable request; the
    unbounded statement is tested by the oracle (evidence: tested_only). *)
 From Coq Require Import String ZArith Bool Arith List.
-From SV Require Import Names NamesFacts Rep Complex Homology Filtration Gen World Small Sweeps RepInv Shapes AddEffect CopyFaithful DelEffect Duality DeleteEffect VInv AwbSpec VReach.
+From SV Require Import Names NamesFacts Rep Complex Homology Filtration Gen World Small Sweeps RepInv Shapes AddEffect CopyFaithful DelEffect Duality DeleteEffect VInv AwbSpec VReach VSets Restrict Lookup.
 
 (* building by basis gives exactly the non-empty subsets of the given simplices, a well-formed
    complex whose views agree *)
@@ -111,3 +111,48 @@ Theorem C02_add_by_basis_effect :
      incl (basisOf r' t) bs /\ forall u, containsSimplex r u = true -> ~ (forall p, In p (basisOf r u) <-> In p (basisOf r' t))).
 Proof. exact add_by_basis_effect. Qed.
 Print Assumptions C02_add_by_basis_effect.
+
+(* THE SAME IN VERTEX SETS: the sets of points that carry a simplex after an accepted add by basis are
+   exactly those that did before and the non-empty subsets of bs *)
+Theorem C02_add_by_basis_vertex_sets :
+  forall r bs id attr r' n, vinv r -> NoDup bs -> 2 <= length bs ->
+  c_addSimplexWithBasis r bs id attr = (r', Ok n) ->
+  forall B, NoDup B -> B <> nil ->
+  ((exists t, containsSimplex r' t = true /\ sameset (basisOf r' t) B) <->
+   (exists t, containsSimplex r t = true /\ sameset (basisOf r t) B) \/ incl B bs).
+Proof. exact add_by_basis_vertex_sets. Qed.
+Print Assumptions C02_add_by_basis_vertex_sets.
+
+(* deleteSimplex(s): never fails on a simplex of the complex; exactly the simplices whose points
+   include all of s's go, the others keep their points; the reading survives *)
+Theorem C02_delete_vertex_sets :
+  forall r s r' x, vinv r -> containsSimplex r s = true -> deleteSimplex r s = (r', x) ->
+  x = Ok tt /\ vinv r' /\
+  (forall t, containsSimplex r' t = true <-> containsSimplex r t = true /\ ~ incl (basisOf r s) (basisOf r t)) /\
+  (forall t, containsSimplex r' t = true -> sameset (basisOf r' t) (basisOf r t)).
+Proof. exact deleteSimplex_vertex_sets. Qed.
+Print Assumptions C02_delete_vertex_sets.
+
+(* deleteSimplexWithBasis(bs) for points bs of the complex: succeeds when some simplex is on exactly
+   bs, and then removes exactly the simplices whose points include bs *)
+Theorem C02_delete_by_basis_vertex_sets :
+  forall r bs r' x, vinv r -> pts r bs -> NoDup bs -> bs <> nil ->
+  deleteSimplexWithBasis r bs = (r', x) ->
+  (x = Ok tt -> vinv r' /\
+     (forall t, containsSimplex r' t = true <-> containsSimplex r t = true /\ ~ incl bs (basisOf r t)) /\
+     (forall t, containsSimplex r' t = true -> sameset (basisOf r' t) (basisOf r t))) /\
+  ((exists s, containsSimplex r s = true /\ sameset (basisOf r s) bs) -> x = Ok tt).
+Proof. exact delete_by_basis_vertex_sets. Qed.
+Print Assumptions C02_delete_by_basis_vertex_sets.
+
+(* restrictBasisTo(bs): never fails (nor runs out of the model's fuel) when bs are points of the
+   complex; afterwards exactly the simplices all of whose points lie in bs are there, with the points
+   they had *)
+Theorem C02_restrict_vertex_sets :
+  forall r bs r' x, vinv r -> restrictBasisTo r bs = (r', x) ->
+  (pts r bs -> x = Ok tt) /\
+  (x = Ok tt -> vinv r' /\
+    (forall t, containsSimplex r' t = true <-> containsSimplex r t = true /\ incl (basisOf r t) bs) /\
+    (forall t, containsSimplex r' t = true -> sameset (basisOf r' t) (basisOf r t))).
+Proof. exact restrict_vertex_sets. Qed.
+Print Assumptions C02_restrict_vertex_sets.
